@@ -94,6 +94,9 @@ def gen_valuation(rng, nsyms):
     val['_image'] = rng.getrandbits(48)
     # x87 top of stack: absent from x86_machine(), so it stays a free 64-bit identifier in the state
     val['float_st0'] = int(hashlib.sha256(('%d|st0' % val['_image']).encode()).hexdigest()[:16], 16)
+    for i in range(1, 8):
+        val['float_st%d' % i] = int(hashlib.sha256(('%d|st%d' % (val['_image'], i)).encode()).hexdigest()[:16], 16)
+    val['float_stack_ptr'] = val['_image'] & 7
     return val
 
 def ref_initial(val):
@@ -108,7 +111,9 @@ def ref_initial(val):
     regs['cr0'] = val['init_cr0']
     regs['cs'] = 9
     regs['dr7'] = 0
-    regs['float_st0'] = val.get('float_st0', 0)
+    for i in range(8):
+        regs['float_st%d' % i] = val.get('float_st%d' % i, 0)
+    regs['float_stack_ptr'] = val.get('float_stack_ptr', 0)
     return regs
 
 # ------------------------------------------------------------ real execution
@@ -116,8 +121,36 @@ def ref_initial(val):
 class Discard(Exception):
     pass
 
+SUM_SCALES = (1, 4)
+
+def sum_term_scale(t):
+    """1 / 4 if t is init_ecx / init_ecx*4, else None."""
+    c = t.__class__.__name__
+    if c == 'ExprId' and t.name == 'init_ecx':
+        return 1
+    if c == 'ExprOp' and t.op == '*' and len(t.args) == 2:
+        ids = [a for a in t.args if a.__class__.__name__ == 'ExprId']
+        ints = [a for a in t.args if a.__class__.__name__ == 'ExprInt']
+        if len(ids) == 1 and len(ints) == 1 and ids[0].name == 'init_ecx' and int(ints[0].arg) == 4:
+            return 4
+    return None
+
+def sum_key_scale(k):
+    """scale if k is init_ebx + init_ecx*scale (+ const), the two-term symbolic base of 'sumbase' histories."""
+    if k.__class__.__name__ != 'ExprOp' or k.op != '+' or not (2 <= len(k.args) <= 3):
+        return None
+    ebx = [a for a in k.args if a.__class__.__name__ == 'ExprId' and a.name == 'init_ebx']
+    ints = [a for a in k.args if a.__class__.__name__ == 'ExprInt']
+    rest = [a for a in k.args if a not in ebx and a not in ints]
+    if len(ebx) != 1 or len(rest) != 1 or len(ints) != len(k.args) - 2:
+        return None
+    return sum_term_scale(rest[0])
+
+_SUM_SCALE = [None]       # scale of the sum base of the history being executed (None: no sum base allowed)
+
 def key_ok(k):
-    """Guard (iii): a memory key must be const, base or base+const."""
+    """Guard (iii): a memory key must be const, base or base+const (base: init_ebx, init_esp, or - in a 'sumbase'
+    history - the one two-term base init_ebx + init_ecx*scale)."""
     c = k.__class__.__name__
     if c == 'ExprInt':
         return True
@@ -128,7 +161,20 @@ def key_ok(k):
         if names == ['ExprId', 'ExprInt']:
             i = [a for a in k.args if a.__class__.__name__ == 'ExprId'][0]
             return i.name in ('init_ebx', 'init_esp')
+    if _SUM_SCALE[0] is not None and sum_key_scale(k) == _SUM_SCALE[0]:
+        return True
     return False
+
+def sum_base_ser(scale):
+    s = sut()
+    ebx, ecx = canon.ser_expr(s.regs['init_ebx']), canon.ser_expr(s.regs['init_ecx'])
+    return ['O', '+', [ebx, ecx if scale == 1 else ['O', '*', [ecx, ['I', 'uint32', scale]]]]]
+
+def region_base_ser(region):
+    s = sut()
+    if region.startswith('_sum'):
+        return sum_base_ser(int(region[4:]))
+    return canon.ser_expr(s.regs[region])
 
 def mems_in(e, out):
     c = e.__class__.__name__
@@ -235,7 +281,7 @@ def run_real(ops, backing=False, held=None):
     trace = []
     reuse_cache = {}
     if held is not None:
-        first = ops[0] if ops else {}
+        first = next((o for o in ops if 'base' in o or 'line' in o), {})
         kind = 'const' if (first.get('base') == 'const' or str(first.get('line', '')).startswith('mov ebx, %d' % CONST_BASE)) else 'sym'
         held.update(early_probes(m, kind))
     for op in ops:
@@ -321,6 +367,10 @@ def run_real(ops, backing=False, held=None):
             trace.append(t)
         elif op['op'] == 'probe':
             trace.append({'probe': True})
+        elif op['op'] == 'snapshot':
+            # the client saves and restores the state (a copy of the pool replaces the pool): semantically nothing
+            m.pool = m.pool.copy()
+            trace.append({'probe': True})
         else:
             raise ValueError(op)
         for k in m.pool.pool_mem:
@@ -377,7 +427,7 @@ def probe_plan(refs, vals, dense):
     ref, val = refs[0], vals[0]
     rel = set()
     for a in ref.touched:
-        for sym in ('init_ebx', 'init_esp'):
+        for sym in [k for k in val if k.startswith('_sum')] + ['init_ebx', 'init_esp']:
             d = (a - val[sym]) & M32
             if d < 0x800 or d > M32 - 0x800:
                 rel.add((sym, d if d < 0x800 else d - (1 << 32)))
@@ -421,10 +471,24 @@ def check_history(ops, vals, dense=True, compare_flags=False, backing=False, reu
     status 'ok' | 'discard' | 'violation'."""
     s = sut()
     held = {}
+    scale = None
+    for op in ops:
+        if op.get('sumbase'):
+            scale = op['sumbase']
+    _SUM_SCALE[0] = scale
+    if scale is not None:
+        # the index register holds a large value so that the two-term base lands far from the plain data base, the
+        # stack and the constant region (distinct symbolic bases are assumed not to alias, by the machine too)
+        vals = [dict(v) for v in vals]
+        for v in vals:
+            v['init_ecx'] = (0x02000000 // scale) + (v['init_ecx'] & 0xff)
+            v['_sum%d' % scale] = (v['init_ebx'] + scale * v['init_ecx']) & M32
     try:
         m, trace, early = run_real(ops, backing, held if reuse_probes else None)
     except Discard as d:
         return {'status': 'discard', 'reason': str(d)}
+    finally:
+        _SUM_SCALE[0] = None
     if early == 'rep-raises':
         return {'status': 'violation', 'class': 'rep-raises:' + trace[-1]['raised'],
                 'detail': {'insn': trace[-1]['name'], 'exception': trace[-1]['raised']}}
@@ -436,10 +500,16 @@ def check_history(ops, vals, dense=True, compare_flags=False, backing=False, reu
     # treats as unrelated (its non-aliasing assumption): such a history/valuation pair is ambiguous.
     consts = [int(k.arg) for k in m.pool.pool_mem if k.__class__.__name__ == 'ExprInt']
     for val in vals:
-        for sym in ('init_ebx', 'init_esp'):
+        syms = [k for k in val if k.startswith('_sum')] + ['init_ebx', 'init_esp']
+        for sym in syms:
             for c in consts:
                 d = (c - val[sym]) & M32
                 if d < 0x1000 or d > M32 - 0x1000:
+                    return {'status': 'discard', 'reason': 'alias-ambiguous-valuation'}
+        for i, a in enumerate(syms):
+            for b in syms[i + 1:]:
+                d = (val[a] - val[b]) & M32
+                if d < 0x2000 or d > M32 - 0x2000:
                     return {'status': 'discard', 'reason': 'alias-ambiguous-valuation'}
     refs = []
     try:
@@ -472,7 +542,7 @@ def check_history(ops, vals, dense=True, compare_flags=False, backing=False, reu
             if region == 'const':
                 a = ['I', 'uint32', d & M32]
             else:
-                base = canon.ser_expr(s.regs[region])
+                base = region_base_ser(region)
                 a = base if d == 0 else ['O', '+', [base, ['I', 'uint32', d & M32]]]
             hk = ('const', d & M32, w) if region == 'const' else (region, d, w)
             e = held.get(hk)
@@ -708,6 +778,40 @@ def gen_string_program(rng, base):
 FLAG_MOVERS = ['sete al', 'sete ah', 'setb dh', 'setne dh', 'setl dl', 'setns ch', 'setbe cl', 'seto al', 'cmove eax, edx', 'cmovb ecx, eax',
                'cmovne edx, ecx', 'cmovz ax, cx', 'cmovb dx, cx', 'cmovs cx, ax', 'lahf', 'sahf', 'pushfd', 'popfd', 'pop eax', 'pop ecx', 'cmc', 'clc', 'stc',
                'sete BYTE PTR [ebx+1]', 'setb BYTE PTR [ebx+2]', 'mov BYTE PTR [ebx+3], ah', 'mov DWORD PTR [ebx+4], eax']
+def gen_sumbase_program(rng):
+    """Memory traffic through ONE two-term symbolic base, [ebx+ecx*scale+d] (base + index operands, zero
+    displacement included); ebx and ecx themselves are never written."""
+    scale = rng.choice(SUM_SCALES)
+    S = 'ebx+ecx*4' if scale == 4 else 'ebx+ecx'
+    regs = {8: ['al', 'dl', 'ah', 'dh'], 16: ['ax', 'dx', 'bp'], 32: ['eax', 'edx', 'ebp']}
+    def mem(w):
+        d = rng.choice([0, 0, 0, 1, 2, 3, 4, 5, 6, 8, -4, -1, -2])
+        return '%s [%s%s]' % (PTR[w], S, '%+d' % d if d else '')
+    lines = []
+    for _ in range(min(10, 2 + int(rng.expovariate(1 / 3.0)))):
+        w = rng.choice([8, 16, 32])
+        k = rng.random()
+        if k < 0.35:
+            lines.append('mov %s, %s' % (mem(w), rng.choice(regs[w])))
+        elif k < 0.45:
+            lines.append('mov %s, %d' % (mem(w), rng.choice([0, 1, 0x7f, 0x80, 0x1234, 0x11223344]) & ((1 << w) - 1)))
+        elif k < 0.72:
+            lines.append('mov %s, %s' % (rng.choice(regs[w]), mem(w)))
+        elif k < 0.78:
+            lines.append('%s %s, %s' % (rng.choice(['movzx', 'movsx']), rng.choice(regs[32]), mem(rng.choice([8, 16]))))
+        elif k < 0.84:
+            lines.append('%s %s, %s' % (rng.choice(['add', 'or', 'xor']), mem(w), rng.choice(regs[w])))
+        elif k < 0.89:
+            lines.append(rng.choice(['push %s' % mem(32), 'pop %s' % mem(32), 'xchg %s, %s' % (mem(32), rng.choice(regs[32]))]))
+        elif k < 0.93:
+            lines.append('fst QWORD PTR [%s%s]' % (S, rng.choice(['', '+4', '-4', '+1'])))
+        else:
+            lines.append(rng.choice(['mov eax, edx', 'mov dl, ah', 'push eax', 'pop edx', 'mov ebp, 5']))
+    ops = [{'op': 'insn', 'line': l, 'sumbase': scale} for l in lines]
+    if rng.random() < 0.15:
+        ops.insert(rng.randrange(1, len(ops) + 1), {'op': 'snapshot'})
+    return ops
+
 def gen_flags_program(rng):
     """Flags moved into registers / memory over CONCRETE register contents, with the flags still
     symbolic or made concrete by a compare on constants."""
@@ -726,12 +830,22 @@ def gen_flags_program(rng):
         for line in rng.sample(['cmc', 'inc eax', 'dec ecx', 'bsf ebp, esi', 'bsf ebp, edi', 'cmovz eax, ecx', 'cmovb edx, eax', 'test eax, eax',
                                 'cmp eax, ecx', 'test edx, edx'], rng.choice([2, 3, 4])):
             ops.append({'op': 'insn', 'line': line})
+    if rng.random() < 0.35:
+        # width-changing instructions over CONCRETE register contents whose halves differ in sign and in being zero
+        # (their lifted forms put an expression wider than its slot into a compose: the fold must cut it to the slot)
+        r = rng.choice(['eax', 'eax', 'ecx', 'edx'])
+        ops.append({'op': 'insn', 'line': 'mov %s, %d' % (r, rng.choice([0x12340001, 0x12348001, 0x1201, 0x1281, 0xFFFF7F7F, 0x00018080, 0x7FFF8000]))})
+        short = {'eax': ('ax', 'al', 'ah'), 'ecx': ('cx', 'cl', 'ch'), 'edx': ('dx', 'dl', 'dh')}[r]
+        for line in rng.sample(['cwde', 'cbw', 'cdq', 'cwd', 'movsx %s, %s' % (r, short[0]), 'movsx %s, %s' % (r, short[1]), 'movzx %s, %s' % (r, short[2]),
+                                'movsx %s, %s' % (short[0], short[1]), 'bswap %s' % r, 'xchg %s, %s' % (short[1], short[2]), 'lea %s, [%s+%s]' % (short[0], r, r),
+                                'movzx ebp, %s' % short[0], 'movsx ebp, %s' % short[2]], rng.choice([1, 2, 3])):
+            ops.append({'op': 'insn', 'line': line})
     for _ in range(rng.randrange(1, 6)):
         ops.append({'op': 'insn', 'line': rng.choice(FLAG_MOVERS) if rng.random() < 0.8 else gen_move_line(rng)})
     return ops
 
 def gen_history(rng):
-    mode = rng.choice(['mem'] * 11 + ['insn'] * 5 + ['string'] * 3 + ['flags'] * 2 + ['arith'])
+    mode = rng.choice(['mem'] * 11 + ['insn'] * 5 + ['string'] * 3 + ['flags'] * 2 + ['arith'] + ['sumbase'])
     base = rng.choice(['sym', 'const'])
     n = min(12, 1 + int(rng.expovariate(1 / 4.0)))
     ops = []
@@ -779,10 +893,25 @@ def gen_history(rng):
                 if w != 32:
                     op['lo'] = rng.choice([0, 8] if w == 8 else [0, 16] if rng.random() < 0.3 else [0])
                 ops.append(op)
+        if base == 'sym' and rng.random() < 0.10:
+            # a 64-bit cell among the stores / loads (they are evaluated with bare eval_instr), and state save / restore
+            ops.insert(rng.randrange(0, len(ops) + 1), {'op': 'insn', 'line': 'fst QWORD PTR [ebx%+d]' % rng.choice([0, 0, 4, 1, -4, 2])})
+        if rng.random() < 0.10:
+            for _ in range(rng.choice([1, 2])):
+                ops.insert(rng.randrange(0, len(ops) + 1), {'op': 'snapshot'})
     elif mode == 'insn':
         pm = rng.choice([0.0, 0.15, 0.4])
         style = rng.choice(['single', 'single', 'block', 'reuse'])
         lines = [gen_misc_line(rng) if rng.random() < pm else gen_move_line(rng) for _ in range(n)]
+        if rng.random() < 0.2:
+            # the same bitwise / additive operation with two constants on one destination (the constants are folded
+            # into one inside a flattened n-ary node) - decided here, unlike the general arithmetic of 'arith' mode
+            w = rng.choice([8, 16, 32, 32])
+            dst = rng.choice({8: R8, 16: R16, 32: DATA_REGS32}[w]) if rng.random() < 0.6 else mem_txt(rng, w)
+            opn = rng.choice(['or', 'or', 'and', 'xor', 'add'])
+            c1, c2 = rng.sample([3, 5, 6, 0x7f, 0xff, 0x81, 0x100, 0x101, 0xf0f0, 0x80000001], 2)
+            at = rng.randrange(0, len(lines) + 1)
+            lines[at:at] = ['%s %s, %d' % (opn, dst, c & ((1 << w) - 1)) for c in (c1, c2)]
         if style == 'block':
             if rng.random() < 0.4:
                 # the get-PC idiom: a call to the next instruction inside a block (pushes the address of what follows)
@@ -805,6 +934,9 @@ def gen_history(rng):
                 if style == 'reuse':
                     op['reuse'] = 1
                 ops.append(op)
+    elif mode == 'sumbase':
+        ops = gen_sumbase_program(rng)         # (always over the symbolic data base)
+        base = 'sym'
     elif mode == 'string':
         ops += gen_string_program(rng, base)
     elif mode == 'flags':
@@ -812,6 +944,16 @@ def gen_history(rng):
     else:
         for _ in range(n):
             ops.append({'op': 'insn', 'line': gen_arith_line(rng) if rng.random() < 0.7 else gen_move_line(rng)})
+        if rng.random() < 0.5:
+            # the same operation with two constants on one unchanged (symbolic) destination: the two constants are
+            # folded into one inside a flattened n-ary node
+            w = rng.choice([8, 16, 32, 32])
+            dst = rng.choice({8: R8, 16: R16, 32: DATA_REGS32}[w]) if rng.random() < 0.6 else mem_txt(rng, w)
+            opn = rng.choice(['or', 'or', 'and', 'xor', 'add', 'sub'])
+            c1, c2 = rng.sample([3, 5, 6, 0x7f, 0xff, 0x81, 0x100, 0x101, 0xf0f0, 0x80000001], 2)
+            pair = [{'op': 'insn', 'line': '%s %s, %d' % (opn, dst, c & ((1 << w) - 1))} for c in (c1, c2)]
+            at = rng.randrange(0, len(ops) + 1)
+            ops[at:at] = pair
     return {'mode': mode, 'base': base, 'nsym': max(nsym, 2), 'backing': (rng.choice([True, 'read-only']) if (base == 'const' and rng.random() < 0.4) else False),
             'reuse_probes': rng.random() < 0.25}, ops
 
